@@ -42,6 +42,7 @@ type Session struct {
 	inMemTree       map[int]bool
 	lastDLS         string
 	transientFault  bool // a store load failed once during the running operation
+	faultReadsViol  string
 	byContent       map[string]string // decoded node -> bytes it was written as
 	lastCwalk       string
 	isoCount        int
@@ -214,6 +215,18 @@ func (s *Session) Exec(line string) (obs string, viol string) {
 		loads := s.Store.TakeLoads()
 		sort.Strings(loads)
 		if o == "bad-slot" || o == "bad-op" {
+			return o, v
+		}
+		if s.transientFault && strings.HasPrefix(o, "err") {
+			// the call failed because one read failed: the bound on reads holds for it all the same
+			v = ""
+			if (t[0] == "loadl" || t[0] == "clonel") && len(loads) > 1 {
+				v = fmt.Sprintf("%s made %d reads, one of which failed", base, len(loads))
+			}
+			if t[0] == "getl" && s.lastHeight >= 0 && len(loads) > s.lastHeight+1 {
+				v = fmt.Sprintf("lookup made %d reads (one of which failed) on a tree of height %d", len(loads), s.lastHeight)
+			}
+			s.faultReadsViol = v
 			return o, v
 		}
 		if v == "" && (t[0] == "loadl" || t[0] == "clonel") && len(loads) > 1 {
